@@ -66,8 +66,8 @@ CHECKS = {
     ),
     "C10": dict(
         engine="E2-product", category="exploration",
-        text="Every expression tree of depth <= 2 (thorough: depth 3 over a core alphabet) over 10 function leaves (scalar, m=n, m!=n, dense/sparse linear, quadratic), a number and an array with {+,-,*,/,neg,offset}, and every helper constructor (restriction with every frozen subset, linear composition, concatenation, normalize/restrict of linear functions, Taylor polynomials, convex linearization with every mask, the 6 aggregations x index groups x scalar/vector scale, the ConstraintAggregation discipline) is built with the real classes and evaluated/differentiated on a grid; value and Jacobian are compared with an independent dual-number evaluation of the same program within a derived rounding bound; operands must stay bitwise unchanged; KS bounds on the documented side.",
-        note="Exhaustive in structure within the stated bounds, 4 value alphabets rotated by VERIF_SEED, float64 only (the 'symbolically for all real inputs' reading is not covered); mixed output dimensions and composites that raise on sparse-Jacobian operands are outside the alphabet.",
+        text="Every expression tree of depth <= 2 (thorough: depth 3 over a core alphabet) over 10 function leaves (scalar, m=n, m!=n, dense/sparse linear, quadratic), a number and an array with {+,-,*,/,neg,offset}, and every helper constructor (restriction with every frozen subset, linear composition, concatenation, normalize/restrict of linear functions, Taylor polynomials, convex linearization for approx_indexes in {None, every boolean mask: all-False, mixed, all-True} on separable and non-separable bases, the 6 aggregations x index groups x scalar/vector scale, the ConstraintAggregation discipline linearized with all Jacobians and with every non-empty subset of the inputs of every multi-input layout declared as differentiated inputs) is built with the real classes and evaluated/differentiated on a grid; value and Jacobian are compared with an independent dual-number evaluation of the same program within a derived rounding bound; operands must stay bitwise unchanged; KS bounds on the documented side.",
+        note="Exhaustive in structure within the stated bounds, 4 value alphabets rotated by VERIF_SEED, float64 only (the 'symbolically for all real inputs' reading is not covered); mixed output dimensions and composites that raise on sparse-Jacobian operands are outside the alphabet; ConvexLinearApprox mismatches are split by footprint: entries with a reciprocal term fall under the registered known finding, all other entries are reported under their own signature.",
         technique="bounded-exhaustive enumeration of expression trees / helper constructions, forward-mode dual-number reference",
     ),
     "C11": dict(
